@@ -309,6 +309,27 @@ PROPS = {
             dict(test="TestC10Prop", kind="rapid", checks={Q: 40, T: 2500}, shards=16, steps=60),
         ],
     ),
+    "C20": dict(
+        pkg="c20", level="exploration",
+        technique="stateful property-based testing (rapid) of start / set-values / pair / unpair / stop / restart histories on one storage directory against the advertised TXT records and the stored identity; exhaustive enumeration of all 10^8 eight-digit setup codes (thorough) plus generated non-code strings against an independent acceptance rule; round trip of the setup URI through an independent base-36 decoder",
+        level_text=("Histories restart a real transport on the same storage with the same or a structurally different accessory set (extra service, extra bridged accessory, other accessory type, changed permission, no bridge), change values in between, pair and unpair controllers through the protocol while running or through the database while stopped. "
+                    "After every start: advertised id and stored key pair equal the first run's, every paired controller still pair-verifies, c# is the previous value plus one exactly when the variant differs from the previous run and never moves on value changes, sf is 1 exactly when no controller is stored (also after each pairing change while running). "
+                    "ValidatePin is compared with '^[0-9]{8}$ minus the twelve trivial codes' on every code (thorough: all 10^8, quick: a stride sample plus neighbours of the trivial codes) and on generated other strings; XHMURI is decoded by an independent decoder."),
+        level_note="Trusted: the TXT accessor hook (returns the records handed to the mDNS responder), refctl, the independent URI decoder. mDNS packets on the wire are not captured. Protocol pairing is kept rare inside histories because the third-party responder sleeps 1 s on every TXT update.",
+        rule=("history machine: first start with variant 0..5, then about 30 actions over {set values, restart (same/other variant, optional database pairing change while stopped), pair through protocol, unpair through /pairings}; codes: quick 200k-stride sample + 76 boundary codes, thorough all 10^8 in 16 shards (one evidence record per block of 1000 codes); "
+              "strings: 6 generator families; URIs: code x category 0..255 x 16 flag sets x setup id. Non-trivial (histories): at least one structural change, one value change and three starts. Distinct by history / block / string / URI tuple."),
+        assumptions=["the accessor hook reflects what is advertised", "codes are given without dashes to ValidatePin"],
+        essential_classes={Q: ["history", "restart:structure-changed", "restart:same-structure", "codes:eight-digit", "strings:non-ascii-digits", "uri:flags=2", "transport-pin", "pair:database"],
+                           T: ["history", "restart:structure-changed", "restart:same-structure", "codes:eight-digit", "strings:non-ascii-digits", "uri:flags=2", "transport-pin", "pair:database", "pair:protocol", "unpair:protocol", "unpair:database", "paired-controller-verifies-after-restart"]},
+        exhaustive={Q: False, T: False},
+        jobs=[
+            dict(test="TestC20Codes", kind="plain", shards={Q: 4, T: 16}),
+            dict(test="TestC20TransportPins", kind="plain"),
+            dict(test="TestC20Strings", kind="rapid", checks={Q: 3000, T: 100000}, shards=4),
+            dict(test="TestC20URI", kind="rapid", checks={Q: 2000, T: 100000}, shards=4),
+            dict(test="TestC20History", kind="rapid", checks={Q: 4, T: 120}, shards=16, steps={Q: 10, T: 30}),
+        ],
+    ),
 }
 
 # reasons for properties not claimed yet (kept current while the framework is being built)
